@@ -29,6 +29,10 @@ eomReceived after a refusal, and the server's command log is a prefix of the cli
 still must never be executed as a command.  `smtp-overlong-line-leaves-data-mode` is used only when that
 is the sole failure and it happens at/after the first message containing an over-long line.
 
+Mail data objects: BytesIO, or (30%) a pipe-like reader whose read(n) returns a non-empty prefix of what is left
+(1 byte, random short, alternating full/1, first read short, stopping right before/after a newline or right before a
+dot line) — "any chunking of the client's reads" is more than CHUNK_SIZE.
+
 Guards: bodies have at least one line, no CR; a body
 without final newline counts its last unterminated piece as a line; timeouts are disabled (no
 reactor timers); response texts are not compared.
@@ -54,7 +58,7 @@ RULE = ("random bodies (1..40 lines, < 900 bytes) rich in '.', '..', '.x' lines 
 ASSUMPTIONS = ["trusted base: the E2 link (vf/engines/netsim.py) and the 10-line expected-message computation in this module",
                "the client and server run without timeouts; SMTP replies are whatever the real server sends"]
 SHARDS = {"quick": 4, "thorough": 16}
-FLOORS = {"application_deferreds_fired_later": 1500, "deferred_kind_called-chained": 300, "deferred_kind_paused": 300, "deferred_kind_pending": 300,
+FLOORS = {"short_read_cases": 800, "short_reads_delivered": 3000, "application_deferreds_fired_later": 1500, "deferred_kind_called-chained": 300, "deferred_kind_paused": 300, "deferred_kind_pending": 300,
           "recipients_rejected": 150, "messages_refused_midway": 50, "second_message_after_failure_or_rejection": 80, "long_line_bodies": 200,
           "line_exactly_at_server_limit": 5, "bodies_with_line_beyond_server_limit": 10, "messages_compared": 1000, "message_lines_compared": 5000, "eom_observed": 1000, "server_commands_logged": 4000,
           "dot_lines_sent": 2000, "dot_line_at_chunk_start": 200, "dot_line_not_at_chunk_start": 500, "no_final_newline": 50,
@@ -198,6 +202,44 @@ def make_deferred(defer, later, kind, value, fail=None):
     return d
 
 
+class ShortReader:
+    """A pipe/socket-like mail data object: read(n) returns a non-empty PREFIX of what is left (never more than n),
+    b"" only at the real end."""
+
+    def __init__(self, data, mode, rng):
+        self.data, self.pos, self.mode, self.rng, self.calls, self.short = data, 0, mode, rng, 0, 0
+
+    def read(self, n=-1):
+        left = len(self.data) - self.pos
+        if left <= 0:
+            return b""
+        n = left if n is None or n < 0 else min(n, left)
+        self.calls += 1
+        m = self.mode
+        if m == "one-byte":
+            k = 1
+        elif m == "random-short":
+            k = self.rng.randint(1, n)
+        elif m == "alternating":
+            k = n if self.calls % 2 else 1
+        elif m == "first-short":
+            k = self.rng.randint(1, max(1, n - 1)) if self.calls == 1 else n
+        else:  # "line-edges": stop right before / right after a newline, or right before a dot line
+            window = self.data[self.pos:self.pos + n]
+            cands = [j + d for j in range(len(window)) if window[j:j + 1] == b"\n" for d in (0, 1)]
+            cands = [c for c in cands if 0 < c <= n]
+            dots = [j + 1 for j in range(len(window) - 1) if window[j:j + 2] == b"\n."]
+            k = self.rng.choice(dots) if dots and self.rng.random() < 0.6 else (self.rng.choice(cands) if cands else n)
+        if k < n:
+            self.short += 1
+        out = self.data[self.pos:self.pos + k]
+        self.pos += k
+        return out
+
+
+READER_MODES = ["one-byte", "random-short", "alternating", "first-short", "line-edges"]
+
+
 def build(log, bodies, nrcpt, hdr, server_cls, plan=None, later=None):
     from zope.interface import implementer
     from twisted.internet import defer
@@ -281,6 +323,11 @@ def build(log, bodies, nrcpt, hdr, server_cls, plan=None, later=None):
             return [b"rcpt%d@example.net" % k for k in range(nrcpt)]
 
         def getMailData(self):
+            mode = plan.get("reader")
+            if mode:
+                r = ShortReader(bodies[self.cur], mode, plan["reader_rng"])
+                plan.setdefault("readers", []).append(r)
+                return r
             return io.BytesIO(bodies[self.cur])
 
         def sentMail(self, code, resp, numOk, addresses, log_):
@@ -360,6 +407,9 @@ def check_connection(ctx, case):
         if ev[0] == "logged-failure":  # the failing eomReceived of the plan is logged by the server; anything else is only recorded
             ctx.count("logged_failures")
             ctx.seen("logged_failure_types", ev[1])
+    for r in plan.get("readers", ()):
+        ctx.count("short_reads_delivered", r.short)
+        ctx.count("mail_data_read_calls", r.calls)
     ctx.count("application_deferreds_fired_later", sum(1 for ev in log if ev[0] == "app-fires-deferred"))
     msgs = {}
     eoms = {}
@@ -446,7 +496,7 @@ def check_connection(ctx, case):
             key = "smtp-dot-first-in-chunk"
     ctx.violation(key, "message delivered by the server differs from the body the client was given / body lines were executed as commands",
                   {"case": case["i"], "chunk_size": chunk, "bodies": bodies, "recipients": nrcpt, "received_header": hdr, "server": server_cls,
-                   "segmentation_mode": case["seg_mode"], "plan": {k: (sorted(v) if isinstance(v, (set, frozenset)) else v) for k, v in plan.items()},
+                   "segmentation_mode": case["seg_mode"], "plan": {k: (sorted(v) if isinstance(v, (set, frozenset)) else v) for k, v in plan.items() if k not in ("reader_rng", "readers")},
                    "first_message_with_overlong_line": over, "dot_lines_at_chunk_start": [dot_lines_at_chunk_start(b, chunk)[0] for b in bodies],
                    "problems": [{"kind": p[0], "message": p[1], "id": p[2], "expected": p[3], "observed": p[4]} for p in problems[:4]],
                    "client_commands": cli_cmds, "server_commands": srv_cmds[:40]})
@@ -480,7 +530,7 @@ def make_case(ctx, i):
         ctx.count("command_lookalike_lines", la)
         nontrivial = nontrivial or hits or other or la
     if nontrivial:
-        ctx.distinct((tuple(bodies), chunk, case["nrcpt"], case["hdr"], case["server"], repr(sorted((case.get("plan") or {}).items(), key=str))))
+        ctx.distinct((tuple(bodies), chunk, case["nrcpt"], case["hdr"], case["server"], repr(sorted(((k, v) for k, v in (case.get("plan") or {}).items() if k != "reader_rng"), key=str))))
     ctx.seen("chunk_sizes", str(chunk))
     ctx.seen("servers", case["server"])
     return case
@@ -535,6 +585,15 @@ def extend_case(ctx, case, i):
         ctx.seen("plans", "+".join(sorted(k for k in plan if k != "dk")) or "deferred-kinds-only")
         if nmsg > 1 and len(plan) > 1:
             ctx.count("second_message_after_failure_or_rejection")
+    rr = ctx.case_rng(i, "reader")
+    if rr.random() < 0.3:  # mail data that delivers SHORT READS before its end (pipe / socket like)
+        case.setdefault("plan", {})
+        case["plan"]["reader"] = rr.choice(READER_MODES)
+        case["plan"]["reader_rng"] = rr
+        if case["plan"]["reader"] == "one-byte" and sum(map(len, case["bodies"])) > 3000:
+            case["plan"]["reader"] = "random-short"
+        ctx.count("short_read_cases")
+        ctx.seen("reader_modes", case["plan"]["reader"])
 
 
 def run(ctx):
